@@ -1,13 +1,5 @@
-/* C05: JSON::parse and its pieces. */
+/* C05: h_parse -- the dispatcher of JSON::parse(StringReader&, bool); the four big branches are separate functions */
 #include "harness/C05/common.h"
-#include "x_json.c"
+#include "x_json_dispatch.c"
 
-void h_hex(void) { char in_x; value_for_hex_char(in_x); VERIF_REACH(); }
-void h_skip(void) { StringReader* r; bool in_de; IN_COMMON; g_de = in_de; int in_wc0, in_wc1; g_wc0 = in_wc0; g_wc1 = in_wc1; skip_whitespace_and_comments(r, in_de); VERIF_REACH(); }
-void h_parse(void) { StringReader* r; JVal* ret; bool in_de; IN_COMMON; g_de = in_de; int in_pc; g_pc = in_pc; JSON_parse(r, in_de, ret); VERIF_REACH(); }
-void h_list(void) { StringReader* r; JVal* ret; bool in_de; IN_COMMON; g_de = in_de; JSON_parse_list(r, in_de, ret); VERIF_REACH(); }
-void h_dict(void) { StringReader* r; JVal* ret; bool in_de; IN_COMMON; g_de = in_de; JSON_parse_dict(r, in_de, ret); VERIF_REACH(); }
-void h_number(void) { StringReader* r; JVal* ret; bool in_de; char in_root; IN_COMMON; g_de = in_de; JSON_parse_number(r, in_de, in_root, ret); VERIF_REACH(); }
-void h_string(void) { StringReader* r; JVal* ret; IN_COMMON; JSON_parse_string(r, ret); VERIF_REACH(); }
-void h_cstr(void) { const char* s; JVal* ret; size_t in_size; bool in_de; IN_COMMON; g_de = in_de; JSON_parse_cstr(s, in_size, in_de, ret); VERIF_REACH(); }
-void h_str(void) { const vstr* s; JVal* ret; bool in_de; IN_COMMON; g_de = in_de; JSON_parse_str(s, in_de, ret); VERIF_REACH(); }
+void h_parse(void) { StringReader* r; JVal* ret; bool in_de; IN_COMMON; g_j.de = in_de; int in_pc; g_j.pc = in_pc; JSON_parse(r, in_de, ret); VERIF_REACH(); }
